@@ -44,6 +44,15 @@ def gen_cases(ctx, label, n_inst):
                 le[0], le[1] = 0, 0
             names = rng.choice([['lsb'], ['maxsize', 'lsb', 'mincost'], ['lsb', 'maxsize'], ['mincostlsb', 'maxsize'],
                                 ['lmb', 'mincost'], ['gre', 'lsb']])
+        if i == 2:
+            # scale: several hundred residents, everybody ranks their own hospital and sometimes the next one, capacities
+            # that could hold everybody (size-dependent shortcuts in a criterion are reached only by such instances)
+            S = rng.randint(401, 430)
+            first = [[[k + 1]] + ([[k % S + 2 if k + 2 <= S else 1]] if rng.random() < 0.3 else []) for k in range(S)]
+            ast = dict(na=2, n1=S, n2=S, first=first, projects=[[0, 1, j + 1] for j in range(S)],
+                       lecturers=[[0, 1, 1, []] for j in range(S)])
+            twopl = stab = pc = False
+            names = rng.choice([['maxsize'], ['mincost', 'maxsize'], ['maxsize', 'mincost']])
         crits = lpcommon.gen_crits(rng, ast, names=names)
         argv = lpcommon.argv_of(ast['na'], twopl, pc, stab, crits, rng)
         limit = rng.choice([None, 5, 5, 2])
